@@ -529,9 +529,39 @@ def r18_7(ctx, counts) -> RuleResult:
                                  f'an iteration of the loop over the items can complete without '
                                  f'calling {f.name}() for its item ({cfg.fmt_path(p)[:160]}): '
                                  f'(b, b, c) is accepted as element(b)+'))
+    # (c) one item of the list is judged for the whole list only when it is the only item
+    from ..engine.dataflow import branch_facts
+    cfg2 = CFG(f.node)
+    facts = branch_facts(cfg2)
+    single = (f'+len({v}) == 1', f'-len({v}) != 1', f'-len({v}) > 1', f'+len({v}) < 2',
+              f'-len({v}) >= 2')
+    n_single = 0
+    for nd in cfg2.nodes:
+        if nd.kind != 'stmt' or not isinstance(nd.ast, ast.Return) or nd.ast.value is None \
+                or f'+isinstance({v}, list)' not in facts[nd.id]:
+            continue
+        picks = [c for c in ast.walk(nd.ast.value) if isinstance(c, ast.Call)
+                 and dotted(c.func) == f.name and c.args and isinstance(c.args[0], ast.Subscript)
+                 and dotted(c.args[0].value) == v]
+        if not picks:
+            continue
+        n_single += 1
+        ok = any(fa in facts[nd.id] for fa in single)
+        res.instances.append(f'{f.key}: L{nd.ast.lineno} `{stmt_text(nd.ast)[:50]}` judges one '
+                             f'item of the list; it is the only item: {ok}')
+        if ok:
+            res.ok()
+        else:
+            res.fail(finding('R18.7', f, nd.ast, 'one item judged for the whole sequence',
+                             f'`{stmt_text(nd.ast)[:60]}` answers for a list of items with the test '
+                             f'of `{stmt_text(picks[0].args[0])}` alone and the list is not known '
+                             f'to have one item: the other items are not tested (items of the '
+                             f'same Python class differ in XSD type: (1, 300) as xs:byte+)'))
     counts['item_quantifiers'] = n
-    if n < 1:
-        raise AnalysisError('match_st: the every-item test of the list branch was not located')
+    counts['single_item_shortcuts'] = n_single
+    if n < 1 or n_single < 1:
+        raise AnalysisError('match_st: the every-item test / the one-item shortcut of the list '
+                            'branch was not located')
     return res
 
 
@@ -906,6 +936,52 @@ def r18_11(ctx, counts) -> RuleResult:
     return res
 
 
+def r18_12(ctx, counts) -> RuleResult:
+    """what validated_result returns has been matched against the declared return type"""
+    from ..engine.cfg import CFG
+    from ..engine.dataflow import branch_facts
+    model: Model = ctx.model
+    res = RuleResult(
+        'R18.12', 'RESULT-MATCHED-BEFORE-RETURN',
+        'XPathFunction.validated_result is the gate through which the value of a built-in '
+        'function passes: every `return X` in it is reached under the fact that '
+        'match_sequence_type(X, <the declared return type>, ..) holds for the X that is returned '
+        '(the fact is established after the last assignment of X), or under the fact that X is '
+        'the placeholder token of a partial application (X.symbol == "?"). A value converted by '
+        'cast_to_primitive_type is a new value and needs its own match: the conversion promotes '
+        'only some items and some types.')
+    fs = [f for f in model.all_functions() if f.name == 'validated_result'
+          and f.module.name == 'elementpath.xpath_tokens.functions']
+    if not fs:
+        raise AnalysisError('XPathFunction.validated_result vanished')
+    n = 0
+    for f in fs:
+        cfg = CFG(f.node)
+        facts = branch_facts(cfg)
+        for nd in cfg.nodes:
+            if nd.kind != 'stmt' or not isinstance(nd.ast, ast.Return) or nd.ast.value is None:
+                continue
+            n += 1
+            x = stmt_text(nd.ast.value)
+            fa = facts[nd.id]
+            ok = any(t.startswith(f'+match_sequence_type({x}, ') for t in fa) \
+                or any(t.startswith(f'+{x}.symbol == ') for t in fa)
+            res.instances.append(f'{f.key}: L{nd.ast.lineno} `return {x[:30]}` under a successful '
+                                 f'match of the returned value: {ok}')
+            if ok:
+                res.ok()
+            else:
+                res.fail(finding('R18.12', f, nd.ast, f'unmatched return {x[:30]}',
+                                 f'`return {x[:40]}` is reached without the fact '
+                                 f'match_sequence_type({x[:20]}, self.sequence_types[-1], ..): the '
+                                 f'value leaves the function without having been matched against '
+                                 f'the declared return type (facts: {sorted(fa)[:3]})'))
+    counts['validated_result_returns'] = n
+    if n < 2:
+        raise AnalysisError(f'validated_result: {n} returns located')
+    return res
+
+
 def run(ctx) -> dict:
     counts: dict[str, int] = {}
     from .c10_datatypes import r10_1, SPEC as C10SPEC
@@ -919,7 +995,8 @@ def run(ctx) -> dict:
     r4.title = 'JUDGEMENT-PURITY (R18.4 = R05.1 on the sequence-type judgement code)'
     results = [r18_1(ctx, counts), r18_2(ctx, counts), r3, r4, r18_6(ctx, counts),
                r18_7(ctx, counts), r18_8(ctx, counts),
-               r18_9(ctx, counts), r18_10(ctx, counts), r18_11(ctx, counts)]
+               r18_9(ctx, counts), r18_10(ctx, counts), r18_11(ctx, counts),
+               r18_12(ctx, counts)]
     return {
         'results': results, 'counts': counts,
         'explanation':
